@@ -139,14 +139,17 @@ class Gen:
                 # YAML also accepts hexadecimal integers (the core definitions use them)
                 sections["constants"].append(f"  {n}: " + (f"0x{v:X}" if v >= 0 and rng.random() < 0.2 else expr))
             elif r < 0.55:
-                v = rng.choice([2.5, 0.001, -17.25, 1e-05, 100.0, 3.0e8])
+                v = rng.choice([2.5, 0.001, -17.25, 1e-05, 100.0, 3.0e8, 3.141592653589793, 1234567.125, 0.30000000000000004,
+                                6.02214076e23, 1.7976931348623157e308, 2.2250738585072014e-308, 123456789.0, 0.1,
+                                -0.3333333333333333, 16777217.0, rng.uniform(-1000, 1000), rng.random() * 1e-9])
                 expr = repr(v)
                 sections["constants"].append(f"  {n}: {expr}")
                 D.features.add("float_constant")
             else:
                 a, b = rng.choice(ints), rng.choice(ints)
                 form = rng.choice(["{a} + {b}", "{a} * 2", "({a} + 1) * 2 - 1", "{a} + {b} - 1", "{a} * {b}", "{a}", "{a} / 2", "({a} * 2 + 1) / 2",
-                                   "{a} / {b}", "{a} - {b} * 3", "{a} * 4 / 4"])
+                                   "{a} / {b}", "{a} - {b} * 3", "{a} * 4 / 4", "{a} / {b}", "1.0 / {a}", "{a} * 0.1", "{a} / 7",
+                                   "({a} + {b}) / 3.0", "{a} * 1e-3 + {b}"])
                 expr = form.format(a=a, b=b)
                 v = eval(expr, {}, {k: D.constants[k] for k in (a, b)})
                 sections["constants"].append(f"  {n}: {expr}")
@@ -320,16 +323,16 @@ class Gen:
     def closure(self, shape=None):
         rng = self.rng
         k = rng.randint(1, self.max_files)
-        shape = shape or rng.choice(["single", "chain", "siblings", "diamond", "respell", "symlink", "cycle", "subdirs", "random"])
+        shape = shape or rng.choice(["single", "chain", "siblings", "diamond", "respell", "symlink", "cycle", "subdirs", "random", "dirgraph"])
         if shape == "single":
             k = 1
-        elif shape in ("diamond",):
+        elif shape in ("diamond", "dirgraph"):
             k = max(k, 4)
         elif shape in ("respell", "symlink", "cycle", "chain", "siblings", "subdirs"):
             k = max(k, 2 if shape != "respell" else 3)
         names = [f"f{i}.yaml" for i in range(k)]
         dirs = [""] * k
-        if shape == "subdirs" or (shape == "random" and rng.random() < 0.5):
+        if shape in ("subdirs", "dirgraph") or (shape in ("random", "diamond", "siblings") and rng.random() < 0.5):
             dirs = [rng.choice(["", "sub/", "sub/deep/", "other/"]) for _ in range(k)]
             dirs[-1] = ""
         paths = [dirs[i] + names[i] for i in range(k)]
@@ -350,6 +353,14 @@ class Gen:
         elif shape == "cycle":
             for i in range(1, k):
                 imports[i] = [i - 1]
+        elif shape == "dirgraph":
+            # files spread over directories, repeated imports, import lists in arbitrary order (a file that was
+            # already read through another path may precede one that was not)
+            for i in range(1, k):
+                imports[i] = rng.sample(range(i), min(i, rng.randint(2, 3)))
+            missing = sorted(set(range(k - 1)) - self._reach(imports, k - 1))
+            imports[k - 1] = imports[k - 1] + missing
+            rng.shuffle(imports[k - 1])
         elif shape == "random":
             for i in range(1, k):
                 imports[i] = sorted(rng.sample(range(i), rng.randint(1, min(i, 2))))
